@@ -21,7 +21,10 @@ def main():
         tier = args[args.index("--tier") + 1]
         args = [a for a in args if a not in ("--tier", tier)]
     no_suite = "--no-suite" in args
-    args = [a for a in args if a != "--no-suite"]
+    copy = "--copy" in args       # examine a scratch worktree of /repo (under /tmp) instead of /repo itself: /repo stays untouched
+    args = [a for a in args if a not in ("--no-suite", "--copy")]
+    if copy:
+        return main_copy(os.path.abspath(sys.argv[1].rstrip("/")), args, tier, no_suite)
     meta_p = os.path.join(d, "meta.json")
     meta = json.load(open(meta_p)) if os.path.exists(meta_p) else {}
     checks = args or [meta.get("property", "").lower()]
@@ -50,6 +53,35 @@ def main():
     finally:
         sh("git -C /repo checkout -- .")
         sh(f"cd {VERIF} && git checkout -- evidence 2>/dev/null; rm -rf {VERIF}/replays/*")
+    print(json.dumps(res, indent=1))
+
+
+def main_copy(d, checks, tier, no_suite):
+    import tempfile
+    patch = os.path.join(d, "patch.diff")
+    demo = os.path.join(d, "demo.py")
+    wt = tempfile.mkdtemp(prefix="seedcopy_", dir="/tmp")
+    os.rmdir(wt)
+    out = tempfile.mkdtemp(prefix="seedout_", dir="/tmp")
+    res = {"dir": d, "tier": tier, "checks": {}, "copy": wt}
+    assert sh(f"git -C /repo worktree add --detach {wt} HEAD -q").returncode == 0
+    try:
+        res["demo_unchanged_rc"] = sh(f"cd {wt} && /venv/bin/python {demo}", timeout=300).returncode
+        a = sh(f"git -C {wt} apply {patch}")
+        if a.returncode != 0:
+            print("patch does not apply:", a.stderr)
+            sys.exit(2)
+        res["demo_changed_rc"] = sh(f"cd {wt} && /venv/bin/python {demo}", timeout=300).returncode
+        if not no_suite:
+            res["suite"] = sh(f"cd {wt} && /venv/bin/python -m pytest -q -p no:cacheprovider --timeout=900 2>&1 | tail -1", timeout=1800).stdout.strip()
+        for c in checks:
+            t0 = time.time()
+            r = sh(f"cd {VERIF} && VERIF_REPO={wt} VERIF_OUT={out} ./vx check {c} --tier {tier}", timeout=7200)
+            viol = [ln for ln in r.stdout.splitlines() if ln.startswith("VIOLATION")]
+            res["checks"][c] = {"rc": r.returncode, "violations": viol[:3], "detail": [ln.strip()[:300] for ln in r.stdout.splitlines() if ln.startswith("   ")][:3],
+                                "wall": round(time.time() - t0, 1), "tail": r.stdout.strip().splitlines()[-1][:200] if r.stdout.strip() else r.stderr[-200:]}
+    finally:
+        sh(f"git -C /repo worktree remove --force {wt}; git -C /repo worktree prune; rm -rf {out}")
     print(json.dumps(res, indent=1))
 
 
